@@ -213,6 +213,7 @@ type Ev struct {
 	Args   []*T
 	Writer *T
 	Segs   []pseg
+	Data   *T // the term written (write events)
 	Res    *T
 	Depth  int
 	NF     int // number of facts established before the event
@@ -907,7 +908,7 @@ func foldBin(op token.Token, a, b *T, typ types.Type) *T {
 		if a.Nil {
 			o = b
 		}
-		if o.Op == "alloc" || o.Op == "make" || o.Op == "closure" || o.Op == "func" || o.isConst() {
+		if o.Op == "alloc" || o.Op == "make" || o.Op == "closure" || o.Op == "func" || o.isConst() || (o.Op == "call" && (o.Aux == "fmt.Errorf" || o.Aux == "errors.New")) || o.Op == "struct" {
 			return cBool(op == token.NEQ)
 		}
 	}
@@ -1168,7 +1169,7 @@ func (r *pxRun) call(st *pxState, fr *pxFrame, x *ssa.Call, k func(*pxState, *px
 				return bind(&T{Op: "tuple", A: []*T{{Op: "len", A: []*T{args[0]}, Typ: types.Typ[types.Int]}, {Op: "const", Nil: true, Typ: errorType()}}, Typ: resTyp})
 			}
 			res := newRes("invoke."+cc.Method.Name(), append([]*T{recv}, args...), true)
-			st.emit(Ev{Kind: "write", Name: cc.Method.Name(), In: x, Within: fr.fn, Writer: recv, Segs: termTemplate(args[0]), Res: res, Depth: fr.depth})
+			st.emit(Ev{Kind: "write", Name: cc.Method.Name(), In: x, Within: fr.fn, Writer: recv, Segs: termTemplate(args[0]), Data: args[0], Res: res, Depth: fr.depth})
 			return bind(res)
 		}
 		res := newRes("invoke."+cc.Method.Name(), append([]*T{recv}, args...), true)
@@ -1218,7 +1219,7 @@ func (r *pxRun) call(st *pxState, fr *pxFrame, x *ssa.Call, k func(*pxState, *px
 				return bind(&T{Op: "const", Nil: true, Typ: errorType()})
 			}
 			res := newRes(name, args, true)
-			st.emit(Ev{Kind: "write", Name: name, In: x, Within: fr.fn, Writer: args[wi], Segs: termTemplate(data), Res: res, Depth: fr.depth})
+			st.emit(Ev{Kind: "write", Name: name, In: x, Within: fr.fn, Writer: args[wi], Segs: termTemplate(data), Data: data, Res: res, Depth: fr.depth})
 			return bind(res)
 		}
 		if len(args) > 0 && args[0].Op == "alloc" && isBufferPtr(args[0].Typ) {
